@@ -3,7 +3,7 @@ cutting at invariants for unbounded symbolic collections."""
 from __future__ import annotations
 import ast
 import z3
-from .sym import (Sym, SInt, SReal, SBool, SStr, SList, FList, SObj, SRange, SDict, Lit, Hole, Unsupported,
+from .sym import (Sym, SInt, SReal, SBool, SStr, SList, FList, GList, SObj, SRange, SDict, Lit, Hole, Unsupported,
                   is_sym, subst_value)
 from .ops import term_of, wrap_term, truth_term
 from . import models, smt
@@ -12,7 +12,8 @@ from . import models, smt
 class IterView:
     """uniform view of an iterable: length term (or concrete int) and element accessor"""
 
-    def __init__(self, length, elem, concrete=None, overlays=(), elem_at=None):
+    def __init__(self, length, elem, concrete=None, overlays=(), elem_at=None, generic=None):
+        self.generic = generic    # index term if this is a generic-element view (GList)
         self.length = length      # z3 Int term
         self.elem = elem          # callable(interp, idx_term) -> value
         self.concrete = concrete  # python list if known
@@ -37,6 +38,8 @@ def view_of(interp, it) -> IterView:
             return IterView(it.length, lambda ip, k, L=it: models.flist_get(ip, L, SInt(k)),
                             overlays=[ui for ui, _ in it.overlay], elem_at=at)
         return IterView(it.length, lambda ip, k, L=it: subst_value(L.template, L.ivar, k))
+    if isinstance(it, GList):
+        return IterView(it.length, lambda ip, k, L=it: L.value, generic=it.g)
     if isinstance(it, SRange):
         lo, hi = term_of(it.lo), term_of(it.hi)
         return IterView(z3.simplify(z3.If(hi > lo, hi - lo, 0)), lambda ip, k, lo=lo: wrap_term(z3.simplify(lo + k)))
@@ -52,11 +55,16 @@ def view_of(interp, it) -> IterView:
         if inner.overlays:
             at = lambda ip, k, exact, inner=inner, st=st: (wrap_term(z3.simplify(term_of(st) + k)), inner.elem_at(ip, k, exact))
         return IterView(inner.length, lambda ip, k, inner=inner, st=st: (wrap_term(z3.simplify(term_of(st) + k)), inner.elem(ip, k)), conc,
-                        overlays=inner.overlays, elem_at=at)
+                        overlays=inner.overlays, elem_at=at, generic=inner.generic)
     if isinstance(it, models.ZipView):
         inners = [view_of(interp, x) for x in it.inners]
         if all(v.concrete is not None for v in inners):
             return _concrete_view(list(zip(*[v.concrete for v in inners])))
+        gens = [v.generic for v in inners if v.generic is not None]
+        if gens:
+            if len(gens) != len(inners) or any(not g.eq(gens[0]) for g in gens):
+                raise Unsupported("zip of generic-element lists with other lists")
+            return IterView(inners[0].length, lambda ip, k, inners=inners: tuple(v.elem(ip, k) for v in inners), generic=gens[0])
         n = inners[0].length
         for v in inners[1:]:
             n = z3.If(v.length < n, v.length, n)
@@ -267,6 +275,10 @@ def comprehension(interp, e, env, kind):
     if kind == "list" and len(gens) == 1 and not gens[0].ifs and not isinstance(e, ast.DictComp):
         it = interp.eval(gens[0].iter, env)
         view = view_of(interp, it)
+        if view.generic is not None:
+            sub = Env(parent=env, globals=env.globals)
+            interp.assign(gens[0].target, view.elem(interp, view.generic), sub)
+            return GList(view.length, view.generic, interp.eval(e.elt, sub))
         if view.concrete is None and not z3.is_int_value(z3.simplify(view.length)) and interp.ctx.prefer_flist(interp, e, env, view):
             iv = interp.fresh_int("ci")
             sub = Env(parent=env, globals=env.globals)
